@@ -488,10 +488,12 @@ func checkC11(c *Ctx) {
 	c.Clause("SetStrategy hands every element of the old strategy's GetBackends() (the same *Backend) to the new strategy before publishing it; the three strategy-name tables agree")
 	c.Clause("RemoveBackend removes every backend of the name (or AddBackend rejects duplicates)")
 	c.Clause("admin handlers answer the success status only on the nil-error edge of the balancer call")
+	c.Clause("a Backend's identity and forwarding machinery (Name, URL, ReverseProxy, Weight) are never stored after the backend was published: a request that picked it just before a removal is still served through it")
 	c.NotDecided("linearizability of concurrent histories beyond mutual exclusion; that in-flight requests complete")
 
 	lockDiscipline(c, func(k string) bool {
-		return k == "loadbalancer.LoadBalancer.strategy" || strings.HasSuffix(k, "Strategy.backends") || k == "loadbalancer.weightedBackend.currentWeight"
+		return k == "loadbalancer.LoadBalancer.strategy" || strings.HasSuffix(k, "Strategy.backends") || k == "loadbalancer.weightedBackend.currentWeight" ||
+			k == "loadbalancer.Backend.Name" || k == "loadbalancer.Backend.URL" || k == "loadbalancer.Backend.ReverseProxy" || k == "loadbalancer.Backend.Weight"
 	})
 	li := p.Locks()
 	nMut := 0
